@@ -701,6 +701,8 @@ var svgDocs = []string{
 	`<svg width="10" height="6"><g transform="matrix(1 0)"><path d="M1 1L9 1L9 5z" fill="#f00"/></g><rect width="2" height="x"/><path d="M2 2H4"/></svg>`,
 	`<svg width="10" height="6"><path d="M1 1L9"/><path d="L2"/><path d="M0 0L1 1"/><polygon points="0 0 1"/></svg>`,
 	`<svg width="10" height="6"><defs><linearGradient id="g"><stop offset="0" stop-color="#fff"/></linearGradient></defs><rect width="2" height="2" fill='url("#g")' stroke='url("#")'/><circle r="1" fill="url(#g)" stroke="url(#)"/></svg>`,
+	// text: default family, a family no system has, anchors, an empty element, nested tspan
+	`<svg width="40" height="20"><text x="2" y="10">hi</text><text x="2" y="15" font-family="no-such-font-family-xyz" font-size="4">ho</text><text text-anchor="middle" font-family="">mid<tspan>dle</tspan></text><text/></svg>`,
 	// elements after the root element has been closed (the element stack is empty again), with child and descendant rules
 	`<svg width="10" height="6"><style>g > rect{fill:red}svg > path{fill:blue}g rect, * > circle{stroke:#000}</style><g><rect width="2" height="2"/></g></svg><rect width="5" height="5"/><path d="M0 0L1 1"/><g><circle r="1"/></g>`,
 }
